@@ -52,6 +52,32 @@ func handler(req http.Request, w *http.ResponseWriter) {
 }
 `
 
+const verifPkgSource = `package verifpkg
+
+func Echo(tag string, n int) string {
+    defer func() { }()
+    label := "<" + tag + ">"
+    sum := 0
+    for i := 0; i < n; i = i + 1 {
+        sum = sum + i
+    }
+    return label + tag
+}
+`
+
+const verifEchoService3 = `@endpoint get path="/services/verif3/{{id}}"
+
+import "http"
+import "fmt"
+import "%s"
+
+func handler(req http.Request, w *http.ResponseWriter) {
+    mine := req.URL.Parts["id"]
+    w.WriteHeader(200)
+    w.Write(fmt.Sprintf("parts=%%v|bare=%%v|q=%%v|user=%%v|body=%%v|mine=%%v|pk=%%v", req.URL.Parts["id"], id, req.Parameters["q"], req.Username, req.Body, mine, verifpkg.Echo(req.Username, 400)))
+}
+`
+
 type verifReq struct {
 	id, q, user, body string
 	svc             int
@@ -83,6 +109,20 @@ func TestVerifC42(t *testing.T) {
 
 	name2 := filepath.Join(dir, "verif2.ego")
 	if err := os.WriteFile(name2, []byte(verifEchoService2), 0o644); err != nil {
+		t.Fatal(err)
+	}
+
+	pkgdir := filepath.Join(dir, "verifpkg")
+	if err := os.MkdirAll(pkgdir, 0o755); err != nil {
+		t.Fatal(err)
+	}
+
+	if err := os.WriteFile(filepath.Join(pkgdir, "verifpkg.ego"), []byte(verifPkgSource), 0o644); err != nil {
+		t.Fatal(err)
+	}
+
+	name3 := filepath.Join(dir, "verif3.ego")
+	if err := os.WriteFile(name3, []byte(fmt.Sprintf(verifEchoService3, pkgdir)), 0o644); err != nil {
 		t.Fatal(err)
 	}
 
@@ -121,6 +161,8 @@ func TestVerifC42(t *testing.T) {
 				rq := verifReq{id: unhex(f[1]), q: unhex(f[2]), user: unhex(f[3]), body: unhex(f[4])}
 				if len(f) > 5 && f[5] == "1" {
 					rq.svc = 1
+				} else if len(f) > 5 && f[5] == "2" {
+					rq.svc = 2
 				}
 
 				batches[len(batches)-1] = append(batches[len(batches)-1], rq)
@@ -165,6 +207,15 @@ func TestVerifC42(t *testing.T) {
 					session.URLParts = map[string]any{"services": true, "verif2": true, "id": rq.id, "sub": rq.user}
 				}
 
+				if rq.svc == 2 {
+					req = httptest.NewRequest(http.MethodGet, "/services/verif3/"+rq.id+"?q="+rq.q, strings.NewReader(rq.body))
+					req.Header.Set("Accept", "text/plain")
+
+					session.Path = "/services/verif3/{{id}}"
+					session.Filename = name3
+					session.URLParts = map[string]any{"services": true, "verif3": true, "id": rq.id}
+				}
+
 				w := httptest.NewRecorder()
 				status := ServiceHandler(session, w, req)
 
@@ -185,7 +236,7 @@ func TestVerifC42(t *testing.T) {
 		wg.Wait()
 	}
 
-	for svc, ep := range []string{"/services/verif/{{id}}", "/services/verif2/{{id}}/{{sub}}"} {
+	for svc, ep := range []string{"/services/verif/{{id}}", "/services/verif2/{{id}}/{{sub}}", "/services/verif3/{{id}}"} {
 		serviceCacheMutex.Lock()
 		item := ServiceCache[ep]
 		serviceCacheMutex.Unlock()
